@@ -1,0 +1,43 @@
+//go:build verif
+
+package websvc
+
+// Contracts for govc (see /verif/DESIGN.md).  Comment-only file.
+
+// The four documented shapes of the linked-IP / DDNS API, over the segments
+// of the request path split at '/' (at most five pieces, so every piece but a
+// fifth one is slash-free).
+//
+//@ pred getShape(p0 string, p3 string, l int) = p0 == "linkip" && (l == 3 || (l == 4 && p3 == "status"))
+//@ pred postShape(p0 string, l int) = (p0 == "ddns" && l == 4) || (p0 == "linkip" && l == 3)
+
+// Dot-segment normalisation (RFC 3986 5.2.4) over slash-free segments: ".."
+// removes the previous segment, "." is dropped.  depth* is the number of
+// segments left after normalising the first k segments; the path stays under
+// its first segment iff the depth never drops below 1.
+//
+//@ pred step(d int, p string) = p == ".." ? d - 1 : (p == "." ? d : d + 1)
+//@ pred staysUnder3(p1 string, p2 string) = step(1, p1) >= 1 && step(step(1, p1), p2) >= 1
+//@ pred staysUnder4(p1 string, p2 string, p3 string) = staysUnder3(p1, p2) && step(step(step(1, p1), p2), p3) >= 1
+
+//@ func shouldProxyGet
+//@   property C19
+//@   requires len(parts) >= 3 && len(parts) <= 4
+//@   ensures  ok == getShape(parts[0], len(parts) == 4 ? parts[3] : "", len(parts))
+//
+//@ func shouldProxyPost
+//@   property C19
+//@   requires len(parts) >= 3 && len(parts) <= 4
+//@   ensures  ok == postShape(parts[0], len(parts))
+
+//@ func shouldProxy
+//@   property C19
+//@   let t = trimPrefix(urlPath, "/")
+//@   let l = splitLen(t, "/", 5)
+//@   ensures only-documented-shapes: ok ==> (l == 3 || l == 4) &&
+//@             ((method == "GET" && getShape(splitPart(t, "/", 5, 0), splitPart(t, "/", 5, 3), l)) ||
+//@              (method == "POST" && postShape(splitPart(t, "/", 5, 0), l)))
+//@   loop 1 invariant forall j int :: 0 <= j && j <= #i ==> parts[j] != "." && parts[j] != ".."
+//@   loop 1 invariant -1 <= #i && #i < len(parts)
+//@   ensures stays-under-prefix: ok ==> (l == 3 ==> staysUnder3(splitPart(t, "/", 5, 1), splitPart(t, "/", 5, 2))) &&
+//@             (l == 4 ==> staysUnder4(splitPart(t, "/", 5, 1), splitPart(t, "/", 5, 2), splitPart(t, "/", 5, 3)))
